@@ -59,7 +59,7 @@ func ruleTimerReport(c *RC) *RuleResult {
 		}
 	}
 	// Reset assigns everything on every path, with the right values
-	exits := c.A.walkFuncOpt(reset, newState(), false, true)
+	exits := c.exitsFrom(reset, newState(), true)
 	for _, e := range exits {
 		r.Sites++
 		bad := ""
@@ -195,7 +195,7 @@ func ruleTimerExtend(c *RC) *RuleResult {
 		return r
 	}
 	p := "p:" + ext.Params[0].Name()
-	exits := c.A.walkFuncOpt(ext, newState(), false, true)
+	exits := c.exitsFrom(ext, newState(), true)
 	for _, e := range exits {
 		r.Sites++
 		bad := ""
